@@ -483,3 +483,9 @@ def run(rep, tier):
         # whole source exactly (fl(fl(w/h)*h) is one ulp off w for ~8% of the sizes)
         from . import c15
         rep.call(c15.inside, rep, prog, "C12.fit-exact")
+        # "when only one dimension matches, no resampling happens along that dimension": the pass
+        # along the other dimension is then the only one and receives the crop offset; every row of
+        # it (also the tail after the groups of N rows) must read source row offset + y
+        from ..engines import row_coverage, validators
+        rep.call(row_coverage.group_tail, rep, prog, "C12.kernel-rows")
+        rep.call(validators.crop_passthrough, rep, prog, "C12.crop-passthrough")
